@@ -171,6 +171,9 @@ func (s *c13Server) reached(id string) (int, int) {
 type c13Call struct {
 	Server string `json:"server"`
 	Pin    string `json:"fingerprint_class"` /* Class name, see c13Pins. */
+	/* Scheme, if set, is how the URL spells https (schemes are
+	case-insensitive). */
+	Scheme string `json:"scheme,omitempty"`
 }
 
 // c13Shell is the harness's Shell: every callback is a scheduling point.
@@ -274,7 +277,11 @@ func (w *c13World) expected(c c13Call) string {
 // run makes the call; gate may be nil.
 func (w *c13World) run(c c13Call, id string, gate func(string)) (verdict string, err error, sh *c13Shell) {
 	sh = &c13Shell{id: id, gate: gate}
-	url := "https://" + w.servers[c.Server].addr + "/io"
+	scheme := "https"
+	if "" != c.Scheme {
+		scheme = c.Scheme
+	}
+	url := scheme + "://" + w.servers[c.Server].addr + "/io"
 	err = simpleshell.Go(context.Background(), simpleshell.ConnConfig{C2: url, Fingerprint: w.pins[c.Pin]}, sh)
 	if nil == err {
 		return "ok", nil, sh
@@ -410,7 +417,7 @@ func c13(r *ev.Result, tier string) {
 	checkDefaults("after the proxied calls (the harness restored what it had changed)")
 
 	/* (b) */
-	menu := []c13Call{{"A", "pinA"}, {"B", "pinA"}, {"B", "pinB"}, {"A", "pinB"}, {"A", "none"}, {"C", "pinA"}, {"I", "pinA"}}
+	menu := []c13Call{{Server: "A", Pin: "pinA"}, {Server: "B", Pin: "pinA"}, {Server: "B", Pin: "pinB"}, {Server: "A", Pin: "pinB"}, {Server: "A", Pin: "none"}, {Server: "C", Pin: "pinA"}, {Server: "I", Pin: "pinA"}}
 	var hists [][]c13Call
 	var rec func(cur []c13Call)
 	rec = func(cur []c13Call) {
@@ -571,7 +578,7 @@ func init() {
 	workers["c13race"] = func([]string) int {
 		w := c13NewWorld()
 		defer w.stop()
-		menu := []c13Call{{"A", "pinA"}, {"B", "pinB"}, {"A", "none"}, {"B", "pinA"}}
+		menu := []c13Call{{Server: "A", Pin: "pinA"}, {Server: "B", Pin: "pinB"}, {Server: "A", Pin: "none"}, {Server: "B", Pin: "pinA"}}
 		var wg sync.WaitGroup
 		for k := 0; k < 20; k++ {
 			for i, c := range menu {
